@@ -1,4 +1,7 @@
 import Ymq.Props.C05
+import Ymq.Props.C05Sched
 #print axioms Ymq.C05.abort_never_wrong_product
 #print axioms Ymq.C05.abort_consistent
 #print axioms Ymq.C05.abort_stops
+#print axioms Ymq.C05.abort_bounded
+#print axioms Ymq.C05.abort_before_start
